@@ -36,6 +36,10 @@ import (
 var (
 	verifDir = envOr("VERIF_DIR", "/verif")
 	repoDir  = envOr("VERIF_REPO", "/repo")
+	// outDir receives evidence/ and replays/. It is /verif except when a check is
+	// pointed at a scratch worktree (seeded/run_all.sh), whose results must not
+	// overwrite the evidence of the registered checks.
+	outDir = envOr("VERIF_OUT", verifDir)
 )
 
 func envOr(k, d string) string {
@@ -946,7 +950,7 @@ func siteName(sc *scratch, id uint32) string {
 }
 
 func writeReplay(sc *scratch, id, tier string, v *violationRec) string {
-	os.MkdirAll(filepath.Join(verifDir, "replays"), 0o755)
+	os.MkdirAll(filepath.Join(outDir, "replays"), 0o755)
 	seed := seedFromEnv()
 	rf := replayFile{Property: id, OracleID: v.Violation.Oracle, ViolationClass: v.Class, Signature: v.Violation.Sig,
 		Message: v.Violation.Message, Seed: seed, Run: v.Run, Tier: tier, Policy: v.Policy, Minimised: true, RaceBuild: v.Race,
@@ -955,7 +959,7 @@ func writeReplay(sc *scratch, id, tier string, v *violationRec) string {
 	for _, s := range v.SchedTrace {
 		rf.ScheduleTrace = append(rf.ScheduleTrace, fmt.Sprintf("seq=%d task %d -> %d at %s", s.Seq, s.From, s.To, siteName(sc, s.Site)))
 	}
-	path := filepath.Join(verifDir, "replays", fmt.Sprintf("%s-%d-%d.json", id, seed, v.Run))
+	path := filepath.Join(outDir, "replays", fmt.Sprintf("%s-%d-%d.json", id, seed, v.Run))
 	write := func() {
 		b, _ := json.MarshalIndent(rf, "", " ")
 		os.WriteFile(path, b, 0o644)
@@ -1167,7 +1171,7 @@ func shrinkInSubprocess(sc *scratch, bin string, env []string, rf *replayFile, c
 func sortedKV(m map[string]int64) map[string]int64 { return m } // encoding/json sorts map keys
 
 func writeEvidence(sc *scratch, id, tier string, seed uint64, seeds []uint64, m meta, agg *aggregate, nViol, nKnown int, wall float64, instrTests string) {
-	os.MkdirAll(filepath.Join(verifDir, "evidence"), 0o755)
+	os.MkdirAll(filepath.Join(outDir, "evidence"), 0o755)
 	samples := make([]any, 0, len(agg.samples))
 	for _, s := range agg.samples {
 		samples = append(samples, s)
@@ -1252,7 +1256,7 @@ func writeEvidence(sc *scratch, id, tier string, seed uint64, seeds []uint64, m 
 		"violations":  nViol,
 	}
 	b, _ := json.MarshalIndent(ev, "", " ")
-	os.WriteFile(filepath.Join(verifDir, "evidence", id+".json"), b, 0o644)
+	os.WriteFile(filepath.Join(outDir, "evidence", id+".json"), b, 0o644)
 }
 
 // ---------------------------------------------------------------------------
